@@ -715,7 +715,12 @@ static vbi_decoder *svc_acquire(int fresh)
                 vbi_decode(g_vbi, &none, 0, g_T);
                 mc_count("decoder_resets_verified", 1);
         }
-        if (!svc_pristine(g_vbi)) die("service decoder not in its initial XDS state after a channel switch reset");
+        if (!svc_pristine(g_vbi)) {
+                /* a verdict about the tree (the documented reset on a channel switch leaves XDS / programme state behind), not a
+                 * harness error; go on with a new decoder */
+                mc_violation("service decoder: a channel switch does not restore the initial XDS / programme information state", "after %llu streams on one decoder", (unsigned long long) 0);
+                vbi_decoder_delete(g_vbi); g_vbi = svc_new(); g_T = 1.0;
+        }
         return g_vbi;
 }
 
@@ -758,7 +763,8 @@ static int run_svc(const stream_t *s, const char *fault, const svcopt_t *opt, ru
         if (run_svc_on(s, fault, opt, rs, 0, 0)) return 1;
         /* reproduce on a decoder made new for this stream, and report from there */
         *rs = tmp;
-        if (run_svc_on(s, fault, opt, rs, 1, 1)) die("anomaly seen on the reused decoder does not reproduce on a new one");
+        if (run_svc_on(s, fault, opt, rs, 1, 1))
+                mc_violation("service decoder: behaviour depends on what was received before a channel switch (anomaly on the reused decoder, none on a new one)", "%s", fault ? fault : "");
         return 0;
 }
 
